@@ -101,7 +101,15 @@ func (k Keeper) ValidateUndelegationAmount(
 	}
 
 	if share.GT(delegationInfo.UndelegatableShare) {
-		return share, delegationtypes.ErrInsufficientShares
+		// SharesFromTokens truncates while TokensFromShares rounds half-up before truncating, so when a pool holds
+		// more than one share per token (after a slash) the shares computed for an amount that is within the
+		// position reported to the staker can exceed the staker's shares by rounding dust. Such a request is an
+		// undelegation of the whole position: remove all of the staker's shares instead of rejecting it.
+		position, err := TokensFromShares(delegationInfo.UndelegatableShare, info.TotalShare, info.TotalAmount)
+		if err != nil || amount.GT(position) {
+			return share, delegationtypes.ErrInsufficientShares
+		}
+		return delegationInfo.UndelegatableShare, nil
 	}
 
 	// Depending on the share, amount can be smaller than unit amount(1stake).
